@@ -39,16 +39,19 @@ YearDays == {D(1, 1, 1), D(9, 12, 31), D(10, 1, 1), D(99, 6, 15), D(100, 3, 1), 
 WeekDays == {D(2020, 12, 28), D(2020, 12, 31), D(2021, 1, 1), D(2021, 1, 3), D(2021, 1, 4), D(2024, 12, 29), D(2024, 12, 30),
              D(2026, 1, 1), D(2026, 12, 31), D(2027, 1, 3), D(2022, 5, 2), D(2024, 2, 29), D(2022, 10, 9), D(2022, 11, 30),
              D(-1, 1, 1), D(-4, 12, 31)}
+\* every entry of every name table: fourteen consecutive days (each weekday twice, a leap day, a month change) and
+\* the 15th of every month
+NameDays == {D(2024, 2, 26) + k : k \in 0..13} \cup {D(2023, m, 15) : m \in 1..12} \cup {D(-1, 12, 25) + k : k \in 0..13}
 Clock == {<<0, 0>>, <<0, 1>>, <<1, 0>>, <<3599, 999999999>>, <<3600, 0>>, <<39599, 0>>, <<43199, 999999999>>, <<43200, 0>>, <<43200, 1>>,
           <<43201, 0>>, <<46800, 999>>, <<82800, 999999>>, <<86399, 999999999>>, <<45296, 123456789>>, <<45296, 100000000>>,
           <<45296, 1000>>, <<86340, 0>>}
 Offs == {0, 1, -1, 59, -59, 60, -60, 3600, -3600, 19800, -19800, 45240, 86399, -86399}
 
-DtValues == {Dt(d, 45296, 123456789, 0) : d \in YearDays \cup WeekDays}
+DtValues == {Dt(d, 45296, 123456789, 0) : d \in YearDays \cup WeekDays \cup NameDays}
             \cup {Dt(D(2022, 5, 2), c[1], c[2], 0) : c \in Clock}
             \cup {Dt(D(2022, 5, 2), 45296, 5, o) : o \in Offs}
             \cup {Dt(D(2022, 12, 31), 86399, 999999999, 3600), Dt(D(1, 1, 1), 0, 0, -3600), Dt(D(2024, 3, 1), 1800, 0, -7200)}
-DateValues == {Dat(d) : d \in YearDays \cup WeekDays \cup {MinDn, MaxDn}}
+DateValues == {Dat(d) : d \in YearDays \cup WeekDays \cup NameDays \cup {MinDn, MaxDn}}
 TimeValues == {Tm(c[1], c[2], 0) : c \in Clock} \cup {Tm(45296, 5, o) : o \in Offs}
 ValuesOf(ty) == CASE ty = "dt" -> DtValues [] ty = "date" -> DateValues [] ty = "time" -> TimeValues
 
@@ -72,6 +75,11 @@ C11(z) ==
   \cup UNION {{Fmt(v, p) : v \in {Dt(D(2022, 5, 2), 45296, 123456789, 3600), Dat(D(-5, 2, 29)), Tm(3600, 1, -60)}} :
                 p \in UNION {Strings(QuoteAlphabet, n) : n \in (IF First THEN 1..(IF Thorough THEN 6 ELSE 5) ELSE {})}}
   \cup {Fmt(v, Composite[i]) : i \in {x \in 1..Len(Composite) : InShard(x)}, v \in DtValues}
+
+\* ---- C02: the w / q / e / D fields at every width on runs of consecutive days (all weekdays, year ends) -----
+C02(z) ==
+  LET days == NameDays \cup {D(2020, 12, 27) + k : k \in 0..9} \cup {D(2024, 12, 27) + k : k \in 0..9} \cup {D(2021, 12, 27) + k : k \in 0..9}
+  IN UNION {{Fmt(Dat(d), Rep(c, w)), Fmt(Dt(d, 82800, 5, 7200), Rep(c, w))} : d \in {x \in days : InShard(x)}, c \in {"w", "q", "e", "D"}, w \in 1..10}
 
 \* ---- C12 ----------------------------------------------------------------------------------
 S(str) == str
@@ -236,7 +244,7 @@ C20(z) ==
   \cup {[op |-> "display", val |-> v] : v \in DtValues}
   \cup (IF First THEN C20Malformed ELSE {})
 
-Cases(z) == CASE Which = "C11" -> C11(z) [] Which = "C12" -> C12(z) [] Which = "C13" -> C13(z) [] Which = "C14" -> C14(z) [] Which = "C20" -> C20(z)
+Cases(z) == CASE Which = "C02" -> C02(z) [] Which = "C11" -> C11(z) [] Which = "C12" -> C12(z) [] Which = "C13" -> C13(z) [] Which = "C14" -> C14(z) [] Which = "C20" -> C20(z)
 
 ASSUME LET cs == SetToSeq(Cases(0)) IN ndJsonSerialize(IOEnv.OUT, cs) /\ PrintT(<<"GENERATED", Len(cs)>>)
 =============================================================================
